@@ -67,8 +67,24 @@ CHAINS = {
     "DSIG_DF__ABAQUS": [("DTAU_DF__ABAQUS", {}), ("DSIG_DF__DTAU_DF", K)],
     "DSIG_DF__DPK1_DF": [("DTAU_DF__DPK1_DF", {}), ("DSIG_DF__DTAU_DF", K)],
 }
-# chained converters in 3D are emitted as compositions (after the structural identity has been checked)
-N3_BASE = [p for p in PAIRS if "%s__%s" % p not in CHAINS]
+# 3D only: converters that start by turning the Cauchy stress into the second Piola-Kirchhoff stress (rational in
+# F) are split into that conversion and a "core" unit traced with the stress as a fresh input (harness/C23/trace.cxx)
+CHAINS3 = {
+    "DTAU_DF__DS_DF": [("cauchy_to_pk2@g", {}), ("DTAU_DF__DS_DF_core", {"p": "prev"})],
+    "DPK1_DF__DS_DEGL": [("cauchy_to_pk2@g", {}), ("DPK1_DF__DS_DEGL_core", {"p": "prev"})],
+}
+CORES3 = ["DTAU_DF__DS_DF_core", "DPK1_DF__DS_DEGL_core"]
+
+
+def chains_of(n):
+    d = dict(CHAINS)
+    if n == 3:
+        d.update(CHAINS3)
+    return d
+
+
+# chained converters are emitted as compositions (after the structural identity has been checked)
+N3_BASE = [p for p in PAIRS if "%s__%s" % p not in CHAINS and "%s__%s" % p not in CHAINS3]
 
 # N = 2: the directly proved pairs are spread over four modules (built in parallel)
 N2_GROUPS = {
@@ -328,6 +344,8 @@ def gen_lean(ck, units, by, chain_ok):
         w("GenN2%s" % g, [by["N2_" + nm] for nm in names])
     for a, b in N3_BASE:
         w("GenN3_%s__%s" % (a, b), [by["N3_%s__%s" % (a, b)]])
+    for core in CORES3:
+        w("GenN3_" + core, [by["N3_" + core]])
     # chained converters (N = 2, 3): emitted as the composition of their parts when structurally identical,
     # else as their own (large) DAG
     bnd = "{K : Type} [Field K] (c c3 : K) (fn : Fns K) (k : Nat → Nat → K) (f g s : Nat → K)"
@@ -335,7 +353,7 @@ def gen_lean(ck, units, by, chain_ok):
         imports = ["import TfelVerif.C23.Spec", "import TfelVerif.C23.GenStress"]
         body = []
         own = []
-        for comp, stages in CHAINS.items():
+        for comp, stages in chains_of(n).items():
             if not chain_ok.get("N%d_%s" % (n, comp)):
                 own.append(by["N%d_%s" % (n, comp)])
                 continue
@@ -343,6 +361,15 @@ def gen_lean(ck, units, by, chain_ok):
             for name, feed in stages:
                 if name == "invert@g":
                     expr = ("g", "(vecOf (N%d_invert_r c c3 fn g))" % n)
+                    continue
+                if name == "cauchy_to_pk2@g":
+                    expr = ("p", "(vecOf (N%d_cauchy_to_pk2_r c c3 fn s g))" % n)
+                    continue
+                if name.endswith("_core"):
+                    imp = "import TfelVerif.C23.GenN3_%s" % name
+                    if imp not in imports:
+                        imports.append(imp)
+                    expr = ("k", "(N%d_%s_r c c3 fn k %s g)" % (n, name, expr[1]))
                     continue
                 if name not in CHAINS:
                     imp = "import TfelVerif.C23.GenN3_%s" % name if n == 3 else \
@@ -372,7 +399,8 @@ def gen_lean(ck, units, by, chain_ok):
 
 PROPS = (["TfelVerif.C23.PropsStress", "TfelVerif.C23.PropsN1"]
          + ["TfelVerif.C23.PropsN2%s" % g for g in N2_GROUPS] + ["TfelVerif.C23.PropsN2Chains"]
-         + ["TfelVerif.C23.PropsN3_%s__%s" % p for p in N3_BASE] + ["TfelVerif.C23.PropsN3Chains"]
+         + ["TfelVerif.C23.PropsN3_%s__%s" % p for p in N3_BASE] + ["TfelVerif.C23.PropsN3_" + x for x in CORES3]
+         + ["TfelVerif.C23.PropsN3Chains"]
          + ["TfelVerif.C23.PropsCompose%d" % n for n in (1, 2, 3)] + ["TfelVerif.C23.PropsNonVacuity"])
 
 
@@ -415,7 +443,7 @@ def run(ck):
     dag, units = t1.run_tracer(ck, tracer)
     by = {u.name: u for u in units}
     expected_units = ["N%d_%s" % (n, s) for n in (1, 2, 3) for s in STRESS_UNITS] + \
-        ["N%d_%s__%s" % (n, a, b) for n in (1, 2, 3) for a, b in PAIRS]
+        ["N%d_%s__%s" % (n, a, b) for n in (1, 2, 3) for a, b in PAIRS] + ["N3_" + x for x in CORES3]
     missing = [x for x in expected_units if x not in by]
     if missing:
         raise vlib.BuildError("tracer did not produce units %s" % missing[:5], "")
@@ -429,7 +457,13 @@ def run(ck):
         inv.inputs = ["g" + x[1:] for x in inv.inputs]
         by2 = dict(by)
         by2["N%d_invert@g" % n] = inv
-        for comp, stages in CHAINS.items():
+        c2 = copy.deepcopy(by["N%d_cauchy_to_pk2" % n])
+        for j, (o, p) in list(c2.nodes.items()):
+            if o == "in" and p[0] == "f":
+                c2.nodes[j] = ("in", "g" + p[1:])
+        c2.inputs = [("g" + x[1:] if x[0] == "f" else x) for x in c2.inputs]
+        by2["N%d_cauchy_to_pk2@g" % n] = c2
+        for comp, stages in chains_of(n).items():
             diff = struct23.compare(by2, "N%d_%s" % (n, comp), [("N%d_%s" % (n, s), f) for s, f in stages])
             chain_ok["N%d_%s" % (n, comp)] = diff is None
             if diff is not None:
